@@ -8,6 +8,7 @@ import (
 	"io"
 	"os"
 	"strconv"
+	"time"
 	"unicode"
 
 	"github.com/ProtonMail/go-crypto/openpgp"
@@ -93,9 +94,17 @@ func PGPClearSignWithKeyID(message io.Reader, keyFile, passphrase string, hexKey
 
 	var signature bytes.Buffer
 
+	// clearsign.Encode signs with the key it is handed and ignores SigningKeyId:
+	// select the key the way detached signing does (the key with that id, or
+	// without an id the entity's signing subkey, else its primary key)
+	signingKey, ok := key.SigningKeyById(time.Now(), keyID)
+	if !ok || signingKey.PrivateKey == nil {
+		return nil, fmt.Errorf("clear sign: %w", errNoKeys)
+	}
+
 	writeCloser, err := clearsign.Encode(
 		&signature,
-		key.PrivateKey,
+		signingKey.PrivateKey,
 		&packet.Config{
 			SigningKeyId: keyID,
 			DefaultHash:  crypto.SHA256,
